@@ -1,6 +1,6 @@
 use std::collections::{HashMap, HashSet};
 
-use combine::{Parser, choice, many1, not_followed_by, optional};
+use combine::{Parser, attempt, choice, many1, not_followed_by, optional};
 use redis_protocol::resp3;
 use redis_protocol::resp3::types::BytesFrame;
 use sierradb::StreamId;
@@ -186,7 +186,9 @@ pub enum FromVersionsArg {
 fn from_versions<'a>() -> impl Parser<FrameStream<'a>, Output = FromVersionsArg> + 'a {
     let latest = keyword("LATEST").map(|_| FromVersionsArg::Latest);
     let sequence = number_u64().map(FromVersionsArg::AllStreams);
-    let map = (keyword("MAP").with(many1::<HashMap<_, _>, _, _>(stream_id_version())))
+    // `attempt`: the word after the last pair (WINDOW) is not a pair; it ends the list and must not
+    // be consumed.
+    let map = (keyword("MAP").with(many1::<HashMap<_, _>, _, _>(attempt(stream_id_version()))))
         .map(FromVersionsArg::Streams);
 
     keyword("FROM").with(choice((latest, sequence, map)))
